@@ -101,6 +101,11 @@ pub fn random_var(r: &mut Rng, depth: usize, ud: bool) -> Term {
     let c = r.below(100);
     if ud && c < 5 {
         Var(0)
+    } else if ud && c < 7 {
+        // free variables whose index does not fit in 32 bits (the model's indices are unbounded naturals; the
+        // crate's are usize): exercises index arithmetic far away from the small values every test uses
+        let big: [usize; 5] = [1 << 32, (1 << 32) + 1, 1 << 31, (1 << 33) - 1, (1 << 40) + 3];
+        Var(depth + big[r.below(big.len())])
     } else if depth > 0 && c < 75 {
         Var(1 + r.below(depth))
     } else {
